@@ -7,7 +7,7 @@ import random
 # argument kinds: G grammar, IT iterator, N nat, L nat list, V value, P pred, M mapfn, F foldfn,
 # C cfgfn, X ctxfn, K collkind, O optional nat, B bool, GL grammar list
 SIG = {
-    'end': '', 'empty': '', 'any': '', 'just': 'L', 'oneof': 'L', 'noneof': 'L', 'select': 'L',
+    'end': '', 'empty': '', 'any': '', 'just': 'L', 'oneof': 'L', 'noneof': 'L', 'select': 'L', 'anyref': '', 'selectref': 'L',
     'cnext': 'N', 'ctake2': 'N', 'cnothing': '', 'cfail': 'N', 'todo': '',
     'then': 'GG', 'ithen': 'GG', 'theni': 'GG', 'delim': 'GGG', 'padded': 'GG',
     'group': ['GL'], 'grouparr': ['GL'],
@@ -177,7 +177,7 @@ UTF8_EDGES = [0x7F, 0x80, 0x7FF, 0x800, 0xFFF, 0x1000, 0xD7FF, 0xE000, 0xFFFF, 0
 
 C01_LEAVES = [
     ('end',), ('empty',), ('any',), ('just', [A]), ('just', [B]), ('just', [A, B]), ('just', [EA]),
-    ('oneof', [A, B]), ('noneof', [A]), ('select', [A, EA]),
+    ('oneof', [A, B]), ('noneof', [A]), ('select', [A, EA]), ('anyref',), ('selectref', [A, EA]),
     ('cnext', 1), ('ctake2', 2), ('cnothing',), ('cfail', 3),
 ]
 C01_UNARIES = [
@@ -378,6 +378,28 @@ def nd_family():
                       # recovery inside the region that is recovered: the outer strategy skips over the inner one's region
                       ('then', ('recnd', ('delim', r, ('just', [s]), ('just', [e])), 0, s, e, others), rest)]:
                 out.append((g, defs))
+    return out
+
+
+def length_sensitive_family():
+    """consumers whose success depends on HOW MANY items an iterable parser yields (collect_exactly N), over every kind of
+    iterable parser, placed where the output is built and where it is discarded (check-mode contexts inside a parse)"""
+    a, b = ('just', [A]), ('just', [B])
+    its = [('rep', a, 0, None), ('rep', a, 1, 3), ('rep', ('oneof', [A, B]), 0, 2),
+           ('sep', a, ('just', [COMMA]), 0, None, False, False), ('sep', a, ('just', [COMMA]), 0, None, True, True),
+           ('ornotit', a), ('intoiter', ('collect', 'vec', ('rep', a, 0, None))), ('intoiter', ('just', [A, B])),
+           ('intoiter', ('ornot', a)), ('intoiter', ('collect', 'vec', ('rep', ('oneof', [A, B]), 1, 3))),
+           ('thenit', ('rep', a, 0, 2), ('rep', b, 1, None)), ('thenit', ('intoiter', ('just', [A])), ('rep', b, 0, 3)),
+           ('thenit', ('ornotit', a), ('intoiter', ('collect', 'vec', ('rep', b, 0, None)))),
+           ('enum', ('rep', a, 0, None)), ('enum', ('intoiter', ('just', [A, B])))]
+    rest = ('collect', 'string', ('rep', ('any',), 0, None))
+    out = []
+    for it in its:
+        for n in range(0, 4):
+            g = ('collectx', n, it)
+            for c in [g, ('ignored', g), ('theni', ('empty',), g), ('ithen', g, ('empty',)), ('to', ('vnat', 5), g),
+                      ('ornot', ('ignored', g)), ('iterp', ('rep', ('ignored', ('then', g, ('just', [COMMA]))), 0, None))]:
+                out.append(('then', c, rest))
     return out
 
 
